@@ -94,6 +94,8 @@ MustErrs == {<<"DuplicateAppenderName", apps[k]>> : k \in {j \in 1..Len(apps) : 
        \cup UNION {{<<"NonexistentAppender", r>> : r \in Range(loggers[k].refs) \ AppSet} : k \in {j \in 1..Len(loggers) : Kept(j)}}
 \* a dangling reference inside a logger that is itself dropped may or may not be reported
 MayErrs == MustErrs \cup UNION {{<<"NonexistentAppender", r>> : r \in Range(loggers[k].refs) \ AppSet} : k \in 1..Len(loggers)}
+\* (a declaration is kept as a whole: of everything it says - level, additive flag, references - only the dangling
+\* references go; the replay gives every declaration a level and a flag of its own and compares them afterwards)
 RECURSIVE KeptLoggers(_)
 KeptLoggers(k) == IF k > Len(loggers) THEN <<>>
                   ELSE (IF Kept(k) THEN <<[name |-> loggers[k].name, refs |-> Filter(loggers[k].refs, AppSet)]>> ELSE <<>>)
